@@ -88,6 +88,9 @@ func c20Case(c *ctx, env map[string]string) {
 		o["ns"] = bc.VerifNamespace()
 		o["dom"] = bc.VerifDomain()
 		o["meta"] = structJSON(bc.VerifNode().GetMetadata())
+		// name expansion under THIS configuration (the same hosts under every configuration of the process: nothing one
+		// configuration computed may show under another)
+		o["expand"] = []interface{}{bc.VerifExpand("reviews"), bc.VerifExpand("reviews.team-x")}
 	}
 	// reference parse of the metadata JSON (protojson is the trusted external parser)
 	var parsed interface{}
